@@ -52,6 +52,46 @@ var solvers = []solverDef{
 	}, func(seed int) string { return "" }},
 }
 
+// oblGroup: obligations of one group (the clauses of one ensures list, of one invariant at one cut, ...) are
+// proved in order and a later clause may use the earlier ones of its group as hypotheses.
+func oblGroup(name string) string {
+	var b strings.Builder
+	depth := 0
+	for _, r := range name {
+		switch {
+		case r == '[':
+			depth++
+			b.WriteRune(r)
+		case r == ']':
+			depth--
+			b.WriteRune(r)
+		case depth > 0 && r >= '0' && r <= '9':
+		default:
+			b.WriteRune(r)
+		}
+	}
+	g := b.String()
+	if k := strings.Index(g, "#"); k >= 0 {
+		if h := strings.LastIndex(g, "#"); h > k && allDigits(g[h+1:]) {
+			g = g[:h]
+		}
+	}
+	return g
+}
+
+func allDigits(s string) bool {
+	s = strings.TrimSuffix(s, "@conc")
+	if s == "" {
+		return false
+	}
+	for _, r := range s {
+		if r < '0' || r > '9' {
+			return false
+		}
+	}
+	return true
+}
+
 func buildScript(fr *FuncResult, upto int, goal string, pre string) string {
 	var b strings.Builder
 	b.WriteString(pre)
@@ -60,7 +100,15 @@ func buildScript(fr *FuncResult, upto int, goal string, pre string) string {
 		b.WriteString(d)
 		b.WriteByte('\n')
 	}
+	grp := ""
+	if upto < len(fr.Facts) && fr.Facts[upto].Oblig {
+		grp = oblGroup(fr.Facts[upto].Name)
+	}
 	for j := 0; j < upto; j++ {
+		if f := fr.Facts[j]; f.Oblig && grp != "" && oblGroup(f.Name) != grp && (strings.Contains(f.Term, "(forall ") || strings.Contains(f.Term, "(exists ")) {
+			// an earlier quantified obligation of another group: proved separately, not needed as a hypothesis here
+			continue
+		}
 		b.WriteString("(assert ")
 		b.WriteString(fr.Facts[j].Term)
 		b.WriteString(")\n")
